@@ -74,6 +74,20 @@ class Opaque:
         return f'<{self.tag}>'
 
 
+@dataclass(frozen=True, repr=False, eq=False)
+class Grown(Opaque):
+    """An unknown list that the evaluated code appended to: `base` is the tag of the list before, `items` what was appended since.
+    Behaves as the opaque value `tag`; only `''.join` looks inside (join(xs + [a]) == join(xs) + a)."""
+    base: str = ''
+    items: tuple = ()
+
+    def __eq__(self, other: Any) -> bool:
+        return isinstance(other, Opaque) and other.tag == self.tag
+
+    def __hash__(self) -> int:
+        return hash((self.tag,))
+
+
 @dataclass(frozen=True)
 class Tok:
     """Symbolic string: concatenation of named tokens / literal pieces."""
@@ -1156,6 +1170,13 @@ class Frame:
                 for x in items:
                     parts += _parts(x)
                 return Tok(parts)
+        if isinstance(f, ast.Attribute) and f.attr == 'join' and len(args) == 1 and not kwargs and isinstance(f.value, ast.Constant) and \
+                f.value.value == '' and isinstance(args[0], Grown):
+            self.ev.events.append(('call', "''.join", args, kwargs, n, tuple(self.ev.ctx)))
+            parts = _parts(Opaque(f"''.join({args[0].base})"))
+            for x in args[0].items:
+                parts += _parts(x)
+            return Tok(parts)
         target = self.eval(f)
         if isinstance(target, BoundBuiltin):
             name = f'{target.obj.ident}.{target.attr}'
@@ -1222,7 +1243,12 @@ class Frame:
         if isinstance(f, ast.Attribute) and f.attr in LIST_MUTATORS and isinstance(f.value, ast.Name) and \
                 isinstance(self.locals.get(f.value.id), Opaque):
             # the receiver is changed in place: later reads see a new version of it
-            self.locals[f.value.id] = Opaque(self.locals[f.value.id].tag + "'")
+            old = self.locals[f.value.id]
+            if f.attr == 'append' and len(args) == 1 and not kwargs and isinstance(args[0], (str, Tok, Opaque)):
+                prev = (old.base, old.items) if isinstance(old, Grown) else (old.tag, ())
+                self.locals[f.value.id] = Grown(old.tag + "'", prev[0], prev[1] + (args[0],))
+            else:
+                self.locals[f.value.id] = Opaque(old.tag + "'")
         return res
 
     def _builtin_effect(self, obj: Any, attr: str, args: list) -> Any:
